@@ -47,6 +47,9 @@ var c17InFaults = []string{
 	// a stray block numbered 0 WITHOUT the E-bit (not a valid first block: dropped) that carries the very header
 	// fields of the message that follows it, complete and in order
 	"stray-block0-same-header",
+	// the sender gives up after two blocks, stays silent for longer than T4 and sends the SAME message again from
+	// block 1: the stale partial is discarded, the restarted message is complete and in order and is delivered
+	"t4-gap-restart",
 }
 
 func c17InTotal(env *fw.Env) int64 { return int64(env.Pick(1024, 24000)) }
@@ -230,7 +233,7 @@ func c17InGen(r *rand.Rand, g int64, cfg c17Cfg) (c17InCase, []c17Step) {
 	switch c.Fault {
 	case "field", "t4-gap", "short-pause", "ebit-early", "ebit-missing", "block0-start", "stray-wrong-direction", "stray-wrong-device":
 		k = 2 + r.IntN(3)
-	case "block0-mid":
+	case "block0-mid", "t4-gap-restart":
 		k = 3 + r.IntN(2)
 	case "lone-block0":
 		k = 1
@@ -272,6 +275,18 @@ func c17InGen(r *rand.Rand, g int64, cfg c17Cfg) (c17InCase, []c17Step) {
 		return c17Step{Raw: raw, Blk: blk, Err: perr, Tag: tag}
 	}
 	c.Retransmit = r.IntN(2) == 0
+	if c.Fault == "t4-gap-restart" {
+		steps = append(steps, valid(m[0], "M1"), valid(m[1], "M2"))
+		for n, b := range m {
+			s := valid(b, fmt.Sprintf("M%d(restarted)", n+1))
+			if n == 0 {
+				s.PreGap = 3 * c17T4
+				s.Tag += fmt.Sprintf("(after %s)", s.PreGap)
+			}
+			steps = append(steps, s)
+		}
+		m = nil // the generic per-block loop below has nothing left to do
+	}
 	for n, b := range m {
 		n1 := n + 1
 		tag := fmt.Sprintf("M%d", n1)
@@ -546,6 +561,11 @@ func c17InRun(link *c17InLink, cfg c17Cfg, steps []c17Step) c17InResult {
 	}
 	got := link.lib.Deliveries(link.seen)
 	link.seen += len(got)
+	// delivered messages are immutable: what the handler was given earlier on this link must not have changed under
+	// the blocks that arrived since (the retained messages are re-read)
+	if alt := link.lib.AlteredLater(); len(alt) > 0 {
+		return fail("delivered-message-altered-later", fmt.Sprintf("%d message(s) delivered earlier on this link changed afterwards; first: %s", len(alt), alt[0]))
+	}
 
 	// Measured gap classes. A gap that is neither certainly < T4 nor certainly > T4 forks the model;
 	// the case is judged only if every branch yields the same deliveries and the same final state.
